@@ -20,11 +20,13 @@ import (
 type Behaviour struct {
 	Delay    time.Duration
 	NoReply  bool
-	Strays   int  // junk datagrams (other serial number) sent before the reply, 2 ms apart
+	Strays   int // junk datagrams (other serial number) sent before the reply, 2 ms apart (or StrayGap)
+	StrayGap time.Duration
 	Flood    bool // junk datagrams every 2 ms for FloodFor
 	FloodFor time.Duration
-	Stall    bool // TCP: accept, read, never answer (until the client gives up)
-	Mangle   int  // 0 = proper reply; otherwise one of mangleNames (a reply that must not be accepted)
+	Stall    bool          // TCP: accept, read, never answer (until the client gives up)
+	HoldOpen time.Duration // TCP: keep the controller's side of the connection open this long after the client closed
+	Mangle   int           // 0 = proper reply; otherwise one of mangleNames (a reply that must not be accepted)
 }
 
 var mangleNames = []string{"", "63-bytes", "65-bytes", "128-bytes", "1024-bytes", "other-serial", "other-function", "som-0x18", "som-0x19", "empty", "split-40+24"}
@@ -58,6 +60,7 @@ type FarmEvent struct {
 	Index uint32
 	From  string
 	Proto string
+	Req   []byte // the request as it arrived
 }
 
 type Farm struct {
@@ -72,6 +75,7 @@ type Farm struct {
 	wg    sync.WaitGroup
 
 	DiscoveryNoise  bool
+	NoiseBurst      int
 	BlankController bool
 }
 
@@ -164,9 +168,15 @@ func (f *Farm) serveUDP() {
 		}
 		req := append([]byte{}, buf[:n]...)
 		idx := binary.LittleEndian.Uint32(req[8:12])
-		f.record(FarmEvent{time.Now(), idx, from.String(), "udp"})
+		f.record(FarmEvent{time.Now(), idx, from.String(), "udp", req})
 		if req[1] == 0x94 && binary.LittleEndian.Uint32(req[4:8]) == 0 { // discovery: several controllers answer
 			go func() {
+				for k := 0; k < f.NoiseBurst; k++ { // a burst of datagrams that are not replies at all, before the replies
+					f.udp.WriteToUDP([]byte{0x17, 0x94, 0, 0, byte(k), byte(k >> 8), 0, 0}, from)
+					if k%25 == 24 { // paced: the receiver's socket buffer is never more than a few dozen datagrams deep
+						time.Sleep(time.Millisecond)
+					}
+				}
 				if f.BlankController { // a controller with factory-blank settings: its reply is byte for byte the request
 					f.udp.WriteToUDP(append([]byte{}, req...), from)
 				}
@@ -201,7 +211,13 @@ func (f *Farm) serveUDP() {
 			}
 			for k := 0; k < b.Strays; k++ {
 				f.udp.WriteToUDP(junk(req), from)
-				time.Sleep(2 * time.Millisecond)
+				if b.StrayGap > 0 {
+					if k%25 == 24 {
+						time.Sleep(25 * b.StrayGap)
+					}
+				} else {
+					time.Sleep(2 * time.Millisecond)
+				}
 			}
 			if b.NoReply {
 				return
@@ -236,7 +252,7 @@ func (f *Farm) serveTCP() {
 				return
 			}
 			idx := binary.LittleEndian.Uint32(req[8:12])
-			f.record(FarmEvent{time.Now(), idx, c.RemoteAddr().String(), "tcp"})
+			f.record(FarmEvent{time.Now(), idx, c.RemoteAddr().String(), "tcp", append([]byte{}, req...)})
 			b := f.behaviour(idx)
 			if b.Stall || b.NoReply {
 				tmp := make([]byte, 1)
@@ -256,6 +272,7 @@ func (f *Farm) serveTCP() {
 			tmp := make([]byte, 1)
 			c.SetReadDeadline(time.Now().Add(time.Second))
 			c.Read(tmp) // let the client close first
+			time.Sleep(b.HoldOpen)
 		}()
 	}
 }
